@@ -138,9 +138,8 @@ def check_concrete(c, args, fn=None):
         try:
             r = c.ensures(result=result, **args, **g)
         except Exception as e:
-            return {"status": "violation", "clause": "post:<evaluation>", "ghosts": g,
-                    "observed": f"result {result!r}; evaluating the postcondition raised {type(e).__name__}: {e}",
-                    "expected": "postcondition evaluable on the result"}
+            return {"status": "error", "what": f"evaluating the postcondition on result {result!r} (ghosts {g}) raised "
+                                               f"{type(e).__name__}: {e}"}
         if not isinstance(r, dict):
             r = {"post": r}
         for name, v in r.items():
@@ -166,6 +165,7 @@ def run_bounded(c, tier, seed, limit_s=None):
     distinct = set()
     samples = []
     violations = []
+    per_clause = {}
     if c.domain is None:
         return {"key": c.key, "error": "no domain declared"}
     for args in c.domain(tier, rng):
@@ -182,13 +182,15 @@ def run_bounded(c, tier, seed, limit_s=None):
             samples.append({"args": enc(args), "outcome": r.get("raised") or r.get("result")})
         if r["status"] == "violation":
             r["args"] = enc(args)
-            violations.append(r)
-            if len(violations) >= 25:
+            per_clause[r.get("clause")] = per_clause.get(r.get("clause"), 0) + 1
+            if per_clause[r.get("clause")] <= 5:
+                violations.append(r)
+            if len(per_clause) > 20:
                 break
         if limit_s and time.time() - t0 > limit_s:
             break
     return {"key": c.key, "evaluations": n, "pre_true": npre, "distinct": len(distinct), "samples": samples,
-            "violations": violations, "wall_s": round(time.time() - t0, 2), "scope": getattr(c.cls, "scope", "")}
+            "violations": violations, "violations_per_clause": per_clause, "wall_s": round(time.time() - t0, 2), "scope": getattr(c.cls, "scope", "")}
 
 
 def main(argv):
